@@ -303,10 +303,72 @@ func c01Matrix(c *mon.Ctx, idx int) {
 	c.Sample(map[string]any{"kind": "matrix entry", "value": z.Name, "go_type": z.N.T.String(), "cases": n})
 }
 
+// c01Accumulation: thousands of distinct patterns, literals, expressions and
+// struct types in ONE process, then the first ones again: process-wide caches
+// that fill up, evict or collide must not change any outcome.
+func c01Accumulation(c *mon.Ctx) {
+	n := tierN(c.Tier, 3000, 20000)
+	type item struct {
+		text  string
+		datum interface{}
+		want  string
+	}
+	var items []item
+	for i := 0; i < n; i++ {
+		tok := fmt.Sprintf("acc%05d", i)
+		switch i % 5 {
+		case 0:
+			items = append(items, item{fmt.Sprintf("s matches \"^%s$\"", tok), map[string]interface{}{"s": tok}, "T"})
+		case 1:
+			items = append(items, item{fmt.Sprintf("s not matches \"^%s$\"", tok), map[string]interface{}{"s": tok + "x"}, "T"})
+		case 2:
+			items = append(items, item{fmt.Sprintf("n == %d and n != %d", 100000+i, i), map[string]interface{}{"n": 100000 + i}, "T"})
+		case 3:
+			items = append(items, item{fmt.Sprintf("%s.v == %d", tok, i), map[string]interface{}{tok: map[string]int{"v": i}}, "T"})
+		default:
+			// a fresh struct type per item
+			st := reflect.StructOf([]reflect.StructField{{Name: "X", Type: reflect.TypeOf(0), Tag: reflect.StructTag(fmt.Sprintf(`bexpr:"x%d"`, i))}, {Name: "H", Type: reflect.TypeOf(""), Tag: `bexpr:"-"`}})
+			v := reflect.New(st).Elem()
+			v.Field(0).SetInt(int64(i))
+			v.Field(1).SetString("hidden")
+			items = append(items, item{fmt.Sprintf("x%d == %d and not (x%d == %d)", i, i, i, i+1), v.Interface(), "T"})
+		}
+	}
+	check := func(it item, phase string) bool {
+		ev, err, pan, _ := createEval(it.text)
+		if pan != "" || err != nil {
+			c.Violation("C01 accumulation create-failed", "CreateEvaluator failed in the accumulation workload", map[string]any{"expression": it.text, "error": fmt.Sprint(err) + pan})
+			return false
+		}
+		o := evaluate(ev, it.datum)
+		c.Evals(1)
+		if o.Class3() != it.want {
+			c.Violation(fmt.Sprintf("C01 accumulation phase=%s got=%s want=%s", phase, o.Class3(), it.want), "after thousands of distinct patterns / literals / expressions / types in one process an outcome is wrong",
+				map[string]any{"expression": it.text, "observed": o.String(), "items_before": len(items)})
+			return false
+		}
+		return true
+	}
+	for _, it := range items {
+		if !check(it, "first-pass") {
+			return
+		}
+	}
+	for i := 0; i < len(items); i += 7 {
+		if !check(items[i], "second-pass") {
+			return
+		}
+	}
+	c.Count("accumulation_runs")
+}
+
 func c01Run(c *mon.Ctx, idx int) {
 	if idx < len(c01Zoo) {
 		c01Matrix(c, idx)
 		return
+	}
+	if idx == len(c01Zoo) {
+		c01Accumulation(c)
 	}
 	r := c.RNG(idx)
 	doc := univ.GenObj(r, 3, true)
@@ -344,7 +406,7 @@ func c01Run(c *mon.Ctx, idx int) {
 var c01Ops = []string{"==", "!=", "in", "not in", "is empty", "is not empty", "matches", "not matches"}
 
 func c01Required(tier string) []string {
-	l := []string{"matrix_entries", "matrix_quantifiers", "outcome:T", "outcome:F", "outcome:E", "reach:resolve:not-present", "reach:resolve:error", "reach:quant:slice", "reach:quant:map", "reach:quant:not-present"}
+	l := []string{"matrix_entries", "accumulation_runs", "matrix_quantifiers", "outcome:T", "outcome:F", "outcome:E", "reach:resolve:not-present", "reach:resolve:error", "reach:quant:slice", "reach:quant:map", "reach:quant:not-present"}
 	for _, p := range univ.PolicyNames {
 		l = append(l, "repr:"+p)
 	}
